@@ -57,6 +57,8 @@ structure Cl where
   /-- every Send call so far -/
   accepted : List Nat := []
   answered : List (Nat × How) := []
+  /-- requests encoded into the write buffer and not flushed to the connection yet -/
+  unflushed : List Nat := []
 deriving Repr
 
 inductive Label
@@ -98,11 +100,13 @@ def step (s : Cl) : Label → Option Cl
   | .wQuitTop => if s.writer = .top ∧ s.quit then some { s with writer := .exited, connOk := false, quit := true } else none
   | .wFilterStop =>
     match s.writer with
-    | .hold id => some (answer { s with writer := .top } id .error)
+    -- (as repaired, F-02f) what was encoded before is flushed when nothing else is waiting to be written
+    | .hold id => some (answer { s with writer := .top, unflushed := if s.pending = [] then [] else s.unflushed } id .error)
     | _ => none
   | .wEncodeOk =>
     match s.writer with
-    | .hold id => some { s with writer := .handoff id }     -- into the write buffer; a broken connection shows at the latest at the next flush
+    -- into the write buffer, flushed at once when no further request is pending; a broken connection shows at the latest at the next flush
+    | .hold id => some { s with writer := .handoff id, unflushed := if s.pending = [] then [] else s.unflushed ++ [id] }
     | _ => none
   | .wEncodeFail =>
     match s.writer with
@@ -145,6 +149,12 @@ def step (s : Cl) : Label → Option Cl
 def run (s : Cl) : List Label → Option Cl
   | [] => some s
   | l :: ls => match step s l with | some s' => run s' ls | none => none
+
+/-- the filter step before the repair of F-02f: back to the top of the loop without a flush -/
+def oldFilterStop (s : Cl) : Option Cl :=
+  match s.writer with
+  | .hold id => some (answer { s with writer := .top } id .error)
+  | _ => none
 
 /-- the request in the writer's hand, if any -/
 def inWriter (s : Cl) : List Nat :=
